@@ -196,13 +196,18 @@ class NpModuleEnv(ModuleEnv):
         return super().method_call(base, name, node, eng, st)
 
     def specfn(self, name, node, eng, st):
-        if name in ('kind_is', 'np_result_type', 'W', 'frozen', 'same_array', 'dtype_class', 'holds'):
+        if name in ('kind_is', 'np_result_type', 'W', 'frozen', 'same_array', 'dtype_class', 'holds', 'ufd'):
             vals = [eng.ev(x, st) for x in node.args]
             if name == 'kind_is':       # kind_is(dt, 'O', 'U', ...)
                 ks = [v.py for v in vals[1:]]
                 return VBool(z3.Or(*[kind_of(vals[0].t) == KINDS[k] for k in ks]))
             if name == 'holds':
-                return VBool(holds(vals[0].t, vals[1].t))
+                hv = [v.val if isinstance(v, VOpt) else v for v in vals]      # an Optional dtype is read through (callers guard with is_none)
+                return VBool(holds(hv[0].t, hv[1].t))
+            if name == 'ufd':       # ufd('name', elem...): uninterpreted function from opaque elements to a dtype
+                from .sorts import ELEM
+                f = z3.Function('ufd_' + vals[0].py, *([ELEM] * (len(vals) - 1) + [DTYPE]))
+                return VU(f(*[coerce(v, 'elem').t for v in vals[1:]]), 'dtype')
             if name == 'np_result_type':
                 return VU(result_type(vals[0].t, vals[1].t), 'dtype')
             if name == 'W':             # width of a block
